@@ -135,8 +135,10 @@ func Oracle(defs []Def) map[string]interface{} {
 			}
 		}
 		if d.Src != "" {
-			_, p := route.VerifHostpath(d.Src)
+			h, p := route.VerifHostpath(d.Src)
 			globs[p] = route.VerifGlobOK(p)
+			h = strings.ToLower(h) // addRoute compiles the lower-cased host of a new host (repair of D03)
+			globs[h] = route.VerifGlobOK(h)
 		}
 	}
 	return map[string]interface{}{"url": urls, "glob": globs}
